@@ -789,10 +789,28 @@ def _load_bearing(rep: Report, repo: Repo):
               norm(first[0]) if first else "missing", repo.loc("block_diagonalization", f))
     f = repo.find("block_diagonalization::block_diagonalize", R)
     so = [n for n in own_nodes(f) if isinstance(n, ast.Assign) and norm(n.targets[0]) == "solver_options"]
-    ok = len(so) == 1 and norm(so[0].value) in ("{} if solver_options is None else dict(solver_options)",
-                                                "dict(solver_options) if solver_options is not None else {}",
-                                                "dict(solver_options or {})")
-    rep.check(ok, R, "block_diagonalization::block_diagonalize copies solver_options before use", norm(so[0].value) if so else "", repo.loc("block_diagonalization", f))
+
+    def fresh(v):
+        """a container of the function's own: {}, dict(), dict(X), dict(X or {}), {**X}, X.copy(), copy(X); or a conditional of such"""
+        if isinstance(v, ast.IfExp):
+            return fresh(v.body) and fresh(v.orelse)
+        t = norm(v)
+        return t in ("{}", "dict()") or (isinstance(v, ast.Call) and call_name(v) in ("dict", "copy", "deepcopy") and len(v.args) == 1) \
+            or (isinstance(v, ast.Call) and isinstance(v.func, ast.Attribute) and v.func.attr == "copy" and not v.args) \
+            or (isinstance(v, ast.Dict) and v.keys and all(k is None for k in v.keys))
+    writes = [n for n in own_nodes(f) if (isinstance(n, ast.Call) and isinstance(n.func, ast.Attribute) and norm(n.func.value) == "solver_options"
+                                          and n.func.attr in ("pop", "update", "setdefault", "clear", "popitem"))
+              or (isinstance(n, ast.Subscript) and isinstance(n.ctx, (ast.Store, ast.Del)) and norm(n.value) == "solver_options")]
+    if not so:
+        ok = not writes  # never rebound: fine only if it is never written either
+    else:
+        # every rebinding is a fresh container, the rebinding(s) come before the first write, and they cover both cases of the
+        # `is None` test when they sit in its arms
+        ok = all(fresh(n.value) for n in so) and (not writes or min(n.lineno for n in so) < min(w.lineno for w in writes))
+        conditional = [n for n in so if isinstance(getattr(n, "_parent", None), ast.If)]
+        if conditional and not (len(so) == 2 and so[0]._parent is so[1]._parent and so[0] in so[0]._parent.body and so[1] in so[0]._parent.orelse):
+            raise AnalysisError(R, "block_diagonalize: `solver_options` is rebound under conditions that are not the two arms of one test")
+    rep.check(ok, R, "block_diagonalization::block_diagonalize copies solver_options before use", "; ".join(norm(n.value)[:60] for n in so), repo.loc("block_diagonalization", f))
     f = repo.find("block_diagonalization::solve_sylvester_direct", R)
     # every mapping that is popped from must be a private copy of the caller's options
     popped = {norm(c.func.value) for c in own_nodes(f) if isinstance(c, ast.Call) and isinstance(c.func, ast.Attribute)
